@@ -398,6 +398,9 @@ func (x *xl) stmt(s ast.Stmt, k cont) (string, error) {
 		if rs, ok := t.Stmt.(*ast.RangeStmt); ok {
 			return x.rangeStmt(rs, t.Label.Name, k)
 		}
+		if fs, ok := t.Stmt.(*ast.ForStmt); ok {
+			return x.forStmt(fs, t.Label.Name, k)
+		}
 		if x.spec.logStmts {
 			// a label that gotos of the fragment may target
 			return x.stmt(t.Stmt, k)
@@ -423,6 +426,8 @@ func (x *xl) stmt(s ast.Stmt, k cont) (string, error) {
 		return x.switchStmt(t, k)
 	case *ast.RangeStmt:
 		return x.rangeStmt(t, "", k)
+	case *ast.ForStmt:
+		return x.forStmt(t, "", k)
 	case *ast.BranchStmt:
 		return x.branchStmt(t, k)
 	}
@@ -540,6 +545,9 @@ func (x *xl) returnStmt(t *ast.ReturnStmt) (string, error) {
 func (x *xl) exprStmt(t *ast.ExprStmt, k cont) (string, error) {
 	c, ok := t.X.(*ast.CallExpr)
 	if !ok {
+		if x.spec.logStmts {
+			return x.logStmt(t, k) // e.g. a channel receive whose value is dropped
+		}
 		return "", errf("line %d: expression statement outside the subset", x.line(t))
 	}
 	if ignorableCall(c) {
@@ -654,6 +662,13 @@ func (x *xl) lhsTarget(e ast.Expr, define bool, ty *gty) (*vinfo, error) {
 		if v := x.lookup(text); v != nil {
 			return v, nil
 		}
+		if h, ok := x.hint(text); ok && x.frag {
+			// a field of an opaque value that the table declares as a variable of the fragment
+			v := &vinfo{coq: x.fresh(sanitize(text)), ty: h}
+			x.live[v.coq]++
+			x.scopes[0][text] = v
+			return v, nil
+		}
 		if _, c, sname, ok := x.structPath(t.X); ok {
 			ft, err := x.structField(sname, t.Sel.Name)
 			if err != nil {
@@ -766,6 +781,22 @@ func (x *xl) assignStmt(t *ast.AssignStmt, k cont) (string, error) {
 			}
 			if x.spec.writer != "" && ftext == "io.WriteString" && len(t.Lhs) == 2 && exprStr(c.Args[0]) == x.spec.writer {
 				return x.writerWrite(t.Lhs, define, c.Args[1], k)
+			}
+		}
+	}
+	if len(t.Lhs) == 1 && len(t.Rhs) == 1 && t.Tok == token.ASSIGN {
+		if ix, ok := t.Lhs[0].(*ast.IndexExpr); ok {
+			if id, ok := ix.X.(*ast.Ident); ok {
+				if v := x.lookup(id.Name); v != nil && (v.ty.k == "list" || v.ty.k == "bytes") {
+					return x.elemAssign(t, v, ix, k)
+				}
+			}
+			if se, ok := ix.X.(*ast.SelectorExpr); ok {
+				if _, _, err := x.expr(se, nil); err == nil {
+					if v := x.lookup(exprStr(se)); v != nil && (v.ty.k == "list" || v.ty.k == "bytes") {
+						return x.elemAssign(t, v, ix, k)
+					}
+				}
 			}
 		}
 	}
@@ -1227,6 +1258,9 @@ func (x *xl) rangeStmt(t *ast.RangeStmt, label string, k cont) (string, error) {
 	default:
 		return "", errf("line %d: range over %s is outside the subset", x.line(t), lt.coq())
 	}
+	if id, ok := t.X.(*ast.Ident); ok && !rangedWritesOK(t.Body.List, id.Name) {
+		return "", errf("line %d: the loop writes elements of the slice it ranges over and continues (later iterations would see the writes)", x.line(t))
+	}
 	checks := x.takeChecks()
 	state := x.assignedOuter(t.Body.List)
 	x.counter++
@@ -1528,4 +1562,214 @@ func stTypes2(state []*vinfo) string {
 		s += v.ty.coq() + " -> "
 	}
 	return s
+}
+
+// xs[i] = v on a list held in a variable
+func (x *xl) elemAssign(t *ast.AssignStmt, v *vinfo, ix *ast.IndexExpr, k cont) (string, error) {
+	i, err := x.exprZ(ix.Index)
+	if err != nil {
+		return "", errf("line %d: %s", x.line(t), err.Error())
+	}
+	var val string
+	if v.ty.k == "bytes" {
+		c, err := x.exprZ(t.Rhs[0])
+		if err != nil {
+			return "", errf("line %d: %s", x.line(t), err.Error())
+		}
+		val = "(Z.to_N " + c + ")"
+	} else {
+		c, ty, err := x.expr(t.Rhs[0], v.ty.elem)
+		if err != nil {
+			return "", errf("line %d: %s", x.line(t), err.Error())
+		}
+		if !ty.eq(v.ty.elem) {
+			return "", errf("line %d: element of type %s assigned a %s", x.line(t), v.ty.elem.coq(), ty.coq())
+		}
+		val = c
+	}
+	x.addCheck("((0 <=? " + i + ") && (" + i + " <? len " + v.coq + "))")
+	checks := x.takeChecks()
+	logged := ""
+	if x.spec.logStmts {
+		if tr := x.lookup("tr"); tr != nil {
+			logged = "let " + tr.coq + " := " + app(tr.coq, "["+coqStr(stmtStr(t))+"%string]") + " in\n  "
+		}
+	}
+	rest, err := k()
+	if err != nil {
+		return "", err
+	}
+	return x.wrapChecks(checks, "let "+v.coq+" := (list_set "+v.coq+" "+i+" "+val+") in\n  "+logged+rest), nil
+}
+
+// rangedWritesOK: every element write to the ranged slice is followed, in its statement list,
+// by statements after which the loop is left
+func rangedWritesOK(list []ast.Stmt, name string) bool {
+	ok := true
+	var walk func(l []ast.Stmt)
+	writes := func(s ast.Stmt) bool {
+		as, isAs := s.(*ast.AssignStmt)
+		if !isAs {
+			return false
+		}
+		for _, l := range as.Lhs {
+			if ix, isIx := l.(*ast.IndexExpr); isIx {
+				if id, isId := ix.X.(*ast.Ident); isId && id.Name == name {
+					return true
+				}
+			}
+		}
+		return false
+	}
+	walk = func(l []ast.Stmt) {
+		for i, s := range l {
+			if writes(s) && !terminates(l[i+1:]) {
+				ok = false
+			}
+			switch t := s.(type) {
+			case *ast.BlockStmt:
+				walk(t.List)
+			case *ast.IfStmt:
+				walk(t.Body.List)
+				if t.Else != nil {
+					walk([]ast.Stmt{t.Else})
+				}
+			case *ast.SwitchStmt:
+				for _, c := range t.Body.List {
+					walk(c.(*ast.CaseClause).Body)
+				}
+			case *ast.RangeStmt:
+				walk(t.Body.List)
+			case *ast.ForStmt:
+				walk(t.Body.List)
+			case *ast.LabeledStmt:
+				walk([]ast.Stmt{t.Stmt})
+			}
+		}
+	}
+	walk(list)
+	return ok
+}
+
+// for init; cond; post { body } (each part optional): recursion on explicit fuel.  The enclosing
+// definition gets two more parameters: fuel_N (how many iterations may run) and oof_N (the result
+// when the fuel runs out, of the definition's result type); theorems state how much fuel suffices.
+func (x *xl) forStmt(t *ast.ForStmt, label string, k cont) (string, error) {
+	kk := x.bindK(k)
+	x.push()
+	defer x.pop()
+	if t.Init != nil {
+		return x.stmt(t.Init, func() (string, error) { return x.forCore(t, label, kk) })
+	}
+	return x.forCore(t, label, kk)
+}
+
+func (x *xl) forCore(t *ast.ForStmt, label string, k cont) (string, error) {
+	bodyAndPost := append([]ast.Stmt{}, t.Body.List...)
+	if t.Post != nil {
+		bodyAndPost = append(bodyAndPost, t.Post)
+	}
+	state := x.assignedOuter(bodyAndPost)
+	x.counter++
+	n := x.counter
+	kn, ln := fmt.Sprintf("k_%d", n), fmt.Sprintf("loop_%d", n)
+	fuelP, oofP := fmt.Sprintf("fuel_%d", n), fmt.Sprintf("oof_%d", n)
+	rest, err := k()
+	if err != nil {
+		return "", err
+	}
+	fv, fr := x.fresh(fmt.Sprintf("f_%d", n)), x.fresh(fmt.Sprintf("g_%d", n))
+	x.live[fv]++
+	x.live[fr]++
+	stArgs := ""
+	for _, v := range state {
+		stArgs += " " + v.coq
+	}
+	cond := "true"
+	var checks []string
+	if t.Cond != nil {
+		c, err := x.cond(t.Cond)
+		if err != nil {
+			return "", errf("line %d: %s", x.line(t), err.Error())
+		}
+		cond = c
+		checks = x.takeChecks()
+	}
+	depth := len(x.scopes)
+	again := func() (string, error) {
+		save := x.scopes
+		x.scopes = x.scopes[:depth]
+		defer func() { x.scopes = save }()
+		next := func() (string, error) { return "(" + ln + " " + fr + stArgs + ")", nil }
+		if t.Post != nil {
+			return x.stmt(t.Post, next)
+		}
+		return next()
+	}
+	lp := &loopCtx{label: label, contCode: again,
+		breakCode: func() (string, error) { return "(" + kn + " " + argsOf(state) + ")", nil }}
+	saveSw := x.switchDepth
+	x.switchDepth = 0
+	x.loops = append(x.loops, lp)
+	body, err := x.scoped(t.Body.List, again)
+	x.loops = x.loops[:len(x.loops)-1]
+	x.switchDepth = saveSw
+	x.live[fv]--
+	x.live[fr]--
+	if err != nil {
+		return "", err
+	}
+	skip := map[string]bool{fv: true, fr: true, kn: true, ln: true, fuelP: true, oofP: true}
+	for _, v := range state {
+		skip[v.coq] = true
+	}
+	var locBinders, locArgs string
+	seenLoc := map[string]bool{}
+	text := body + " " + cond + " " + strings.Join(checks, " ")
+	for _, sc := range x.scopes {
+		var names []string
+		for _, v := range sc {
+			names = append(names, v.coq)
+		}
+		sort.Strings(names)
+		for _, nm := range names {
+			var v *vinfo
+			for _, cand := range sc {
+				if cand.coq == nm {
+					v = cand
+				}
+			}
+			if v == nil || skip[v.coq] || seenLoc[v.coq] || x.pidx[v.coq] != nil || v.ty == nil || v.ty.k == "struct" || v.ty.k == "poison" {
+				continue
+			}
+			if !wordIn(v.coq, text) {
+				continue
+			}
+			seenLoc[v.coq] = true
+			locBinders += " (" + v.coq + " : " + v.ty.coq() + ")"
+			locArgs += " " + v.coq
+		}
+	}
+	stTypes := stTypes2(state)
+	if len(state) == 0 {
+		stTypes = "unit -> "
+	}
+	binders := "(" + fv + " : nat)"
+	for _, v := range state {
+		binders += " (" + v.coq + " : " + v.ty.coq() + ")"
+	}
+	x.addParam(fuelP, "nat", fmt.Sprintf("fuel of the loop at line %d: the number of iterations that may run", x.line(t)), 2)
+	x.addParam(oofP, "@@RES@@", fmt.Sprintf("result when the fuel of the loop at line %d runs out", x.line(t)), 2)
+	dname := x.coqName + "_" + ln
+	step := "if " + cond + "\n      then (" + body + ")\n      else (" + kn + " " + argsOf(state) + ")"
+	if len(checks) > 0 {
+		step = x.wrapChecks(checks, step)
+	}
+	def := fmt.Sprintf("@@LOOP%d@@", n) + "Definition " + dname + " @@PARAMS@@" + locBinders + " (" + kn + " : " + stTypes + "@@RES@@) (" + oofP + " : @@RES@@) : nat -> " + stTypes2(state) + "@@RES@@ :=\n" +
+		"  fix " + ln + " " + binders + " {struct " + fv + "} : @@RES@@ :=\n    match " + fv + " with\n    | O => " + oofP +
+		"\n    | S " + fr + " =>\n      " + step + "\n    end."
+	x.loopDefs = append(x.loopDefs, def)
+	code := "let " + kn + " := fun " + bindersOf(state) + " =>\n  " + rest + " in\n  " +
+		"(" + dname + fmt.Sprintf(" @@ARGS%d@@", n) + locArgs + " " + kn + " " + oofP + ") " + fuelP + stArgs
+	return code, nil
 }
